@@ -503,6 +503,8 @@ Proof.
   unfold num_open_axes at 1 in H. rewrite Hvtn in H. cbn [option_map] in H.
   destruct (match joins with [] => Some O | _ :: _ => num_open_axes o end) as [nother|]; [|discriminate].
   destruct (forallb _ joins) eqn:FJ; [|discriminate]. cbn [negb] in H.
+  destruct (joins_starve n o joins) eqn:JS; [discriminate|].
+  unfold merge_changes in H.
   destruct (is_shared_order ordT _ _) eqn:ST; [|discriminate]. cbn [negb] in H.
   destruct (is_shared_order ordB _ _) eqn:SB; [|discriminate]. cbn [negb] in H.
   destruct (relabel_tensors o ordT _ VT) as [[o1 tmp]|] eqn:RT; [|discriminate].
